@@ -13,6 +13,7 @@ single-connection rule with redirect following disabled.
 
 from __future__ import annotations
 
+import asyncio
 import hashlib
 import pathlib
 
@@ -34,7 +35,7 @@ RULE = ("each run generates a redirect graph over 2-8 URLs on up to three hosts 
         "(graph shape, max_redirects, result class) signatures; non-trivial = the walk contained "
         "at least one redirect")
 PROBES = ["chain_exactly_max", "chain_longer_than_max", "cycle", "self_loop", "cross_host_hop",
-          "grey_target", "non_gemini_target", "cert_changed_on_hop", "cert_swapped_on_later_hop", "follow_disabled",
+          "grey_target", "non_gemini_target", "cert_changed_on_hop", "cert_swapped_on_later_hop", "overlapping_fetches", "follow_disabled",
           "max_redirects_zero", "final_after_redirects"]
 COMPONENTS = {
     "real": ["nauyaca.client.session.GeminiClient (_get_with_redirects, _get_single)",
@@ -80,16 +81,19 @@ def run_one(ch):
                                           "https://h0.sim/", "//h0.sim/n0", "mailto:x@y"])
             nd.update(kind="grey", meta=grey, status=30, greykind=k)
     max_r = ch.choose("max", 7)
+    # overlapping fetches on ONE client (staggered starts, servers answer after a
+    # short delay so that a fetch is between two hops when the next one starts)
+    concurrent = ch.chance("concurrent", 0.3)
     certs = {h: "rsa1" for h in HOSTS}
     certs["h1.sim"] = "ed1"
     certs["h2.sim"] = "rsa2"
     bad_host = None
-    if ch.chance("badpin", 0.25):
+    if not concurrent and ch.chance("badpin", 0.25):
         bad_host = HOSTS[ch.choose("badhost", 3)]
     # some hosts switch to another certificate after their n-th connection
     swap_after = {}
     for h in HOSTS:
-        if ch.chance("swap", 0.2):
+        if not concurrent and ch.chance("swap", 0.2):
             swap_after[h] = 1 + ch.choose("swapn", 3)
     reqlog = []      # every request line any server received
 
@@ -112,6 +116,8 @@ def run_one(ch):
                     peer.send_app(f"20 text/plain\r\nnode {nd['path']} on {host}\n".encode())
                 else:
                     peer.send_app(f"{nd['status']} {nd['meta']}\r\n".encode())
+            if concurrent:
+                return {"script": [("wait_line",), ("sleep", 0.02), ("call", respond), ("close",)]}
             return {"script": [("wait_line",), ("call", respond), ("close",)]}
         return beh
     servers = {h: ScriptedServer(sim, h, 1965, certs[h], behaviour(h)) for h in HOSTS}
@@ -126,9 +132,13 @@ def run_one(ch):
         return certs[h] if (n_ is None or conn_count[h] < n_) else "rsa3"
     fetches = []
     nf = 1 + ch.choose("nfetch", 3, [5, 3, 2])
+    if concurrent:
+        nf = 2 + ch.choose("nconc", 2)
     for _ in range(nf):
-        fetches.append({"start": ch.choose("start", nn), "follow": not ch.chance("nofollow", 0.15)})
+        fetches.append({"start": ch.choose("start", nn), "follow": not ch.chance("nofollow", 0.15),
+                        "delay": ch.pick("stagger", [0.0, 0.01, 0.03, 0.05]) if concurrent else 0.0})
     out = []
+    out_total = {}
 
     async def main():
         db_path = pathlib.Path(scratch, "tofu.db")
@@ -136,6 +146,26 @@ def run_one(ch):
         if bad_host is not None:
             # the store pins a different certificate for this host than it serves
             client.tofu_db.trust(bad_host, 1965, load_cert("rsa4"))
+        if concurrent:
+            n0 = sum(len(s.conns) for s in servers.values())
+
+            async def one(f):
+                if f["delay"]:
+                    await asyncio.sleep(f["delay"])
+                try:
+                    r = await client.get(nodes[f["start"]]["url"], follow_redirects=f["follow"])
+                    return ("resp", r.status, r.meta, r.body)
+                except CertificateChangedError as e:
+                    return ("changed", str(e)[:80])
+                except Exception as e:  # noqa
+                    return ("err", type(e).__name__, str(e)[:120])
+            gots = await asyncio.gather(*[one(f) for f in fetches])
+            total = sum(len(s.conns) for s in servers.values()) - n0
+            counts = {h: len(s.conns) for h, s in servers.items()}
+            for f, got in zip(fetches, gots):
+                out.append((f, got, None, list(reqlog), counts))
+            out_total["n"] = total
+            return
         for f in fetches:
             n0 = sum(len(s.conns) for s in servers.values())
             r0 = len(reqlog)
@@ -159,10 +189,12 @@ def run_one(ch):
     sigparts = []
     any_redirect = False
     prev_counts = {h: 0 for h in HOSTS}
+    group_limit_acc = []
     for f, got, nconn, reqs, counts_after in out:
         # connections really made so far (differently spelled loops make the client
         # connect more often than the node-identity walk below assumes)
         conn_count.update(prev_counts)
+        before_counts = dict(prev_counts)
         prev_counts = counts_after
         # ---- model walk --------------------------------------------------
         cur = f["start"]
@@ -217,7 +249,8 @@ def run_one(ch):
                    pinned_wrong_host=bad_host, cert_swap_after_n_connections=swap_after)
         # ---- universal rules --------------------------------------------
         limit = (max_r + 1) if f["follow"] else 1
-        if nconn > limit:
+        group_limit_acc.append(limit)
+        if nconn is not None and nconn > limit:
             res.violate("C16/too-many-connections",
                         f"{nconn} connections opened, bound is max_redirects+1 = {limit}", **ctx)
         for host, line in reqs:
@@ -246,7 +279,7 @@ def run_one(ch):
                 st["final_after_redirects"] = 1
             if verdict[2] == max_r and max_r > 0:
                 st["chain_exactly_max"] = 1
-            if f["follow"] and nconn != verdict[2] + 1 and got[0] == "resp":
+            if f["follow"] and nconn is not None and nconn != verdict[2] + 1 and got[0] == "resp":
                 res.violate("C16/connection-count-mismatch",
                             f"{nconn} connections for a chain of {verdict[2]} redirects", **ctx)
         elif v == "error":
@@ -264,7 +297,7 @@ def run_one(ch):
                     res.violate("C16/follow-disabled-not-returned-unchanged",
                                 "with follow_redirects=False the 3x response must be returned "
                                 "unchanged after exactly one connection", **ctx)
-            if nconn != 1:
+            if nconn is not None and nconn != 1:
                 res.violate("C16/follow-disabled-connection-count",
                             f"{nconn} connections with follow_redirects=False", **ctx)
         elif v == "grey":
@@ -282,10 +315,25 @@ def run_one(ch):
                 res.violate("C16/hop-certificate-wrong-error",
                             "certificate mismatch on a hop did not raise CertificateChangedError",
                             **ctx)
+        # hosts the client really contacted during this fetch although the walk above
+        # did not go there (e.g. it followed an over-long or oddly spelled gemini
+        # target): their first connection pinned what was presented then
+        for h_ in HOSTS:
+            if counts_after[h_] > before_counts[h_] and pins.get(h_) is None:
+                n_ = swap_after.get(h_)
+                pins[h_] = certs[h_] if (n_ is None or before_counts[h_] < n_) else "rsa3"
         if max_r == 0:
             st["max_redirects_zero"] = 1
         sigparts.append((v, verdict[2] if len(verdict) > 2 else 0, got[0]))
 
+    if concurrent:
+        st["overlapping_fetches"] = 1
+        if out_total.get("n", 0) > sum(group_limit_acc):
+            res.violate("C16/too-many-connections",
+                        f"{out_total['n']} connections for {len(out)} overlapping fetches, the sum of "
+                        f"their bounds is {sum(group_limit_acc)}", max_redirects=max_r,
+                        fetches=[(nodes[f["start"]]["url"], f["follow"]) for f, *_ in out],
+                        graph=[(n["url"], n["kind"], n.get("meta", "")[:60]) for n in nodes])
     for k_ in st:
         res.stats[k_] += 1
     res.stats["fetches"] += len(out)
